@@ -235,6 +235,7 @@ class Monitor:
         self.samples = []
 
     def v(self, key, msg, w):
+        self.reported = getattr(self, "reported", 0) + 1
         if sum(1 for x in self.viol if x["key"] == key) < 3:
             self.viol.append({"key": key, "msg": msg, "witness": w})
 
@@ -808,14 +809,14 @@ def run_shard(spec):
         for j in range(5 if quick else 120):
             seq = Seq(mon, rng, j)
             mon.c["sequences"] += 1
-            nviol = len(mon.viol)
+            nviol = getattr(mon, "reported", 0)
             try:
                 seq.run(rng.choice([50, 80]) if quick else rng.choice([50, 150, 300]))
             except Exception:
                 # the harness cannot go on with this sequence.  When the sequence has ALREADY produced a violation (a pool
                 # holding a rule-breaking transaction makes the harness's own block assembly fail, for instance) that violation
                 # is the finding and the sequence ends here; otherwise the failure is the harness's and the shard is inconclusive
-                if len(mon.viol) == nviol:
+                if getattr(mon, "reported", 0) == nviol:
                     raise
                 mon.c["sequences_ended_after_a_violation"] = mon.c.get("sequences_ended_after_a_violation", 0) + 1
                 try:
